@@ -119,6 +119,9 @@ def extra_seeds():
         {"kind": "xml", "rows": [{"enc": [["a,b", 1], [1.5, 1]], "rep": 1}, {"enc": [["q t", 1], ["x;y", 1]], "rep": 1}, {"enc": [[-2, 1], ["it's", 1]], "rep": 1}], "cols": [2]},
         # values that evaluate to False are values: trailing 0 cells / rows of zeros must survive stripping
         {"kind": "xml", "rows": [{"enc": [[1, 1], [0, 2]], "rep": 1}, {"enc": [[0, 1], [None, 2]], "rep": 1}, {"enc": [[0, 3]], "rep": 2}, {"enc": [[None, 3]], "rep": 1}], "cols": [3]},
+        # the same with value cells that carry no text:p child (0, false, empty string, and a non-zero control)
+        {"kind": "xml", "rows": [{"enc": [[1, 1], [["N", "float", "0"], 2]], "rep": 1}, {"enc": [[["N", "float", "7"], 1], [["N", "boolean", "false"], 1], [None, 1]], "rep": 1},
+                                 {"enc": [[["N", "float", "0"], 3]], "rep": 2}, {"enc": [[None, 3]], "rep": 1}], "cols": [3]},
     ]
 
 
